@@ -214,9 +214,9 @@ func (f *Frame) callByContract(ins ssa.Instruction, fc *FuncContract, callee *ss
 	}
 	old := st.heap.clone()
 	oldWm := st.wm
-	// havoc modifies
+	// havoc modifies (location expressions are evaluated in the pre-call state)
 	for _, m := range fc.Modifies {
-		f.havocModifies(m, fc, pkg, lookupPre, st)
+		f.havocModifiesIn(m, fc, pkg, lookupPre, st, old)
 	}
 	if !fc.Pure {
 		nwm := u.sc.fresh("wm", SInt)
@@ -255,6 +255,12 @@ func (ce *CEnv) withWm(wm Term) *CEnv {
 }
 
 func (f *Frame) havocModifies(m string, fc *FuncContract, pkg *types.Package, lookup func(string) (CVal, bool), st *State) {
+	f.havocModifiesIn(m, fc, pkg, lookup, st, st.heap)
+}
+
+// havocModifiesIn havocs the locations named by m in st; the location expressions
+// themselves are evaluated in evalHeap (the callee's entry state).
+func (f *Frame) havocModifiesIn(m string, fc *FuncContract, pkg *types.Package, lookup func(string) (CVal, bool), st *State, evalHeap Heap) {
 	u := f.u
 	if m == "*" {
 		for _, r := range sortedKeys(u.rsorts) {
@@ -269,7 +275,7 @@ func (f *Frame) havocModifies(m string, fc *FuncContract, pkg *types.Package, lo
 		f.errorf("modifies %q: %v", m, err)
 		return
 	}
-	ce := &CEnv{u: u, pkg: pkg, lookup: lookup, heap: st.heap, old: st.heap, bound: map[string]CVal{}}
+	ce := &CEnv{u: u, pkg: pkg, lookup: lookup, heap: evalHeap, old: evalHeap, bound: map[string]CVal{}}
 	switch x := e.(type) {
 	case *ECall:
 		if x.Fn == "elems" && len(x.Args) == 1 {
@@ -299,6 +305,11 @@ func (f *Frame) havocModifies(m string, fc *FuncContract, pkg *types.Package, lo
 				return // a value was boxed: nothing reachable to write
 			}
 			if _, isStruct := pt.Elem().Underlying().(*types.Struct); isStruct {
+				if hasReferences(pt.Elem()) {
+					// the reachable object graph is not bounded by the struct itself
+					f.havocModifies("*", fc, pkg, lookup, st)
+					return
+				}
 				for _, r := range f.structRegions(pt.Elem()) {
 					h := u.heapGet(st.heap, r)
 					es := strings.TrimSuffix(strings.TrimPrefix(u.rsorts[r], "(Array Int "), ")")
@@ -753,7 +764,7 @@ func (f *Frame) invokeByContract(ins ssa.Instruction, fc *FuncContract, c *ssa.C
 	}
 	old := st.heap.clone()
 	for _, m := range fc.Modifies {
-		f.havocModifies(m, fc, pkg, lookupPre, st)
+		f.havocModifiesIn(m, fc, pkg, lookupPre, st, old)
 	}
 	resT := sig.Results()
 	results := f.freshResults("r_"+sanitize(fc.Target), resT, st)
@@ -1056,7 +1067,7 @@ func (f *Frame) nextOp(x *ssa.Next, st *State) Value {
 		u.assume(mkAnd(st.reach, ok), u.mapHas(st.heap, m, mt, k))
 		u.assume(mkAnd(st.reach, ok), u.wf(k, mt.Key(), st.wm))
 		kv = Value{T: k, Ty: mt.Key()}
-		v := u.mapGet(st.heap, CVal{T: m, Ty: rng.X.Type()}, CVal{T: k})
+		v := u.mapGetRaw(st.heap, CVal{T: m, Ty: rng.X.Type()}, CVal{T: k})
 		vt2 := u.freshDef("mval", v.T)
 		u.assume(mkAnd(st.reach, ok), u.wf(vt2, mt.Elem(), st.wm))
 		vv = Value{T: vt2, Ty: mt.Elem()}
@@ -1277,4 +1288,22 @@ func (f *Frame) applyLemma(lu Clause, where string, lookup func(string) (CVal, b
 	}
 	f.u.assume(st.reach, t)
 	f.u.usedAssumes = append(f.u.usedAssumes, "lemma "+lm.Name+" (proved separately), instantiated at "+where)
+}
+
+// hasReferences reports whether values of t can reach other heap objects.
+func hasReferences(t types.Type) bool {
+	switch u := t.Underlying().(type) {
+	case *types.Basic:
+		return u.Kind() == types.UnsafePointer
+	case *types.Struct:
+		for i := 0; i < u.NumFields(); i++ {
+			if hasReferences(u.Field(i).Type()) {
+				return true
+			}
+		}
+		return false
+	case *types.Array:
+		return hasReferences(u.Elem())
+	}
+	return true
 }
